@@ -92,6 +92,7 @@ def run_layout(res, L, tier, scratch):
     g = L.graph("complete")
     gpath = os.path.join(scratch, "g.gfa")
     fw.write_text(gpath, conv.gfa_text(g, L))
+    conv.prime_with_sibling(scratch, L)
     maxlen = c01.maxlen_for(L, tier)
     pairs = list(conv.records_for(g, L, maxlen))
     recs = [r for r, st in pairs]
@@ -187,6 +188,7 @@ def replay(case, scratch):
     g = L.graph("complete")
     gpath = os.path.join(scratch, "g.gfa")
     fw.write_text(gpath, conv.gfa_text(g, L))
+    conv.prime_with_sibling(scratch, L)
     chain = case.get("chain")
     lines = case["records"]
     text = "".join(l + "\n" for l in lines)
